@@ -152,7 +152,7 @@ func findFirstBetween(value, sub, start, finish any) (any, error) {
 		for k := 0; k < j; k++ {
 			_, sz := utf8.DecodeRuneInString(s[n:])
 			if sz == 0 {
-				return nil, nil
+				break
 			}
 
 			n += sz
@@ -365,7 +365,7 @@ func findLastBetween(value, sub, start, finish any) (any, error) {
 		for k := 0; k < j; k++ {
 			_, sz := utf8.DecodeRuneInString(s[n:])
 			if sz == 0 {
-				return nil, nil
+				break
 			}
 
 			n += sz
